@@ -23,10 +23,6 @@ func (sx *server) handleMsg(src, dst net.IP, msg dhcpmsg.Message) {
 		yl.Printf("received a message with my own hwaddr from duid %s, dropping.", duid)
 		return
 	}
-	if sx.selfIP.Equal(opts.RequestedIP) {
-		yl.Printf("received request for my own IP from duid %s, nice try...", duid)
-		return
-	}
 
 	switch opts.MessageType {
 	case dhcpmsg.MsgTypeDiscover:
